@@ -7,7 +7,11 @@ open KinModel.Drv KinModel.LoadSafety KinModel.LoadDoc
 partial def conv : Json → JV
   | .null => .null
   | .bool b => .bool b
-  | .num n => .num (if n.mantissa == 0 then "0" else "nz")
+  | .num n =>
+    -- a number beyond float64 makes `json.Unmarshal` fail wherever it is decoded into `any`; the YAML fallback of
+    -- `unmarshal` then reads it as a string (observed: `$ref: 1e400` becomes a reference text)
+    if (toString n.mantissa.natAbs).length > n.exponent + 309 then .str "<number beyond float64>"
+    else .num (if n.mantissa == 0 then "0" else "nz")
   | .str s => .str s
   | .arr a => .arr (a.toList.map conv)
   | .obj kvs => .obj (kvs.foldl (fun acc k v => acc ++ [(k, conv v)]) [])
